@@ -171,7 +171,7 @@ def run(ck, fb):
         if b:
             g = util.mut_calls_on_field(b, 'service_map', r'HashMap::<K, V, S, A>::get$')
             t = Taint(b, local_src=[2])
-            ck.require(len(g) == 1 and t.op_tainted(g[0].args[1]), 'R12f', '%s:lookup-by-key' % fn, b.where(), '%s does not look up the requested service key' % fn)
+            ck.require(len(g) >= 1 and all(t.op_tainted(_x.args[1]) for _x in g), 'R12f', '%s:lookup-by-key' % fn, b.where(), '%s does not look up the requested service key' % fn)
             gl = b.calls(re.escape(SV + 'get_instance_list') + '$')
             ck.require(len(gl) >= 1, 'R12f', '%s:reads-service' % fn, b.where(), '%s does not read the instances of the found service' % fn)
 
